@@ -68,11 +68,19 @@ CLAIMED = {
         "text": "EVALUATOR ONLY (the parser's precedence/associativity is not covered). evaluate_expression is cut out of the real file on every run (rewrite rules X1-X6, X9 counted in the evidence), given `ensures pure(expr) ==> result == spec_eval(expr)` / `decreases expr`, and Verus proves it for every tree of literals and operators: 64-bit wrapping + - *, signed /, unsigned comparisons, shift counts mod 64, short-circuit && ||, MIN/MAX, ~ ! unary-, ALIGN; errors exactly on /0 and ALIGN(0); termination. Three sub-expressions Verus cannot model (out-of-range `as` casts) are replaced by contract-carrying stubs whose contracts Kani proves on the same extracted text for all 2^128 operand pairs. Kani also proves ASSERT fails exactly when its expression is zero. Induction over unbounded trees needs a deductive prover; the bit-level leaves need a bit-precise one.",
         "note": "Not covered: parse_expression (winnow combinators; C precedence of the parser is NOT decided), trees containing symbols / SIZEOF / ADDR / ORIGIN / LENGTH leaves (opaque), ALIGN relative to a non-zero location counter. The Kani half runs on a standalone extraction with stand-in context types (Route S) because evaluate_expression::<Elf> on the real crate exhausts 60 GB in CBMC. Trusted: the spec (ldexp.c transcription), assume_specifications for wrapping_neg and u64::from(bool), vstd's specs, the extraction rules.",
     },
+    "C02": {
+        "category": "proof",
+        "design_ref": "DESIGN.md section 6, C02",
+        "engine": "verus+kani",
+        "technique": "Verus (Z3): representation invariant + pre/postconditions on the mechanically extracted SymbolPrioritySelector::{new,consider,best}, and an inductive lemma over all candidate sequences; Kani replay harness on the real crate (bounded, <= 4 candidates)",
+        "text": "SELECTOR ONLY - this decides which candidate wins once the candidates and their strengths are known; it does not decide which symbols are candidates, duplicate-strong/COMDAT errors, shared-library filtering or undefined-symbol errors. The three methods are extracted verbatim (rules X1, X2, X7) and given contracts over an abstract view (the sequence of candidates considered so far, in command-line order): new() represents the empty sequence; consider() maintains first-strong / earliest-largest-common / first-weak for EVERY prior sequence; best() returns the ELF rule's choice (strong > largest common > weak, earliest among equals, Undefined never wins). A lemma proved from those contracts alone shows fold(consider).best() is the rule's choice for candidate vectors of any length. This is a data-structure-against-abstract-view property, which needs induction: Verus.",
+        "note": "Not decided: select_symbol's loop (dynamic symbols skipped, COMDAT exemption, --allow-multiple-definition), SymbolStrength::of, resolution of undefined/weak-undefined references - all over AtomicSymbolDb/Layout, which neither verifier can construct. Trusted: is_best() as the transcription of the property's rule; assume_specification for Option::or; extraction rules. The Kani harness is a bounded replay vehicle only and is not counted as proved.",
+    },
 }
 
 PENDING = {
     pid: "check under construction in this session (planned claim, see DESIGN.md section 6); not claimed until its obligations run green"
-    for pid in ["C01", "C02", "C08", "C09", "C11", "C15", "C22", "C30", "C36"]
+    for pid in ["C01", "C08", "C09", "C11", "C15", "C22", "C30", "C36"]
 }
 
 NOT_APPLICABLE = {
